@@ -260,6 +260,8 @@ class Gen:
         r = self.rng
         while True:
             t = r.choice(TEXTS)
+            if "\u0301" in t and self.enc != "utf-8" and r.random() < 0.8:
+                continue          # the combining-character defect under narrow encodings is known: keep it rare
             if t or allow_empty:
                 return t
 
@@ -614,7 +616,10 @@ def wf_node(w):
             if kc == 0 and not (amount >= 1 and cs["box"]):
                 return "given-height Pile child is not a box widget"
             if kc == 1 and not cs["flow"]:
-                return LENIENT if cs["fixed"] else "pack Pile child is neither flow nor fixed"
+                import urwid
+                if cs["fixed"] and type(c) is urwid.BigText:
+                    return LENIENT
+                return "pack Pile child is not a flow widget"
             if kc == 2:
                 if not (isinstance(amount, int) and amount >= 1):
                     return "Pile weight is not a positive integer"
@@ -828,13 +833,13 @@ class C01(core.Check):
                  "oracle = a complete validate_size on the real canvas")
     level_text = ("Proved in Coq (render_contract_partial, by structural induction, arbitrary depth, every size >= 1, both focus "
                   "values): for trees built from leaves that satisfy the contract themselves, AttrMap / LineBox delegation, "
-                  "BoxAdapter, Padding (given / pack / relative width), Filler (pack / given / relative height) and Pile (given / "
-                  "pack / weight items), BOX sizing yields exactly the requested columns and rows and FLOW sizing the requested "
+                  "BoxAdapter, Padding (given / pack / relative width), Filler (pack / given / relative height) Pile (given / "
+                  "pack / weight items) and Frame (header / footer, any focus part), BOX sizing yields exactly the requested columns and rows and FLOW sizing the requested "
                   "columns and exactly rows() rows, all content rows have the canvas width, the cursor is inside, rows() >= 1 and "
                   "pack((c,)) agrees with rows() - unless the model reports one of two explicit markers: a widget was handed a "
                   "size with a component <= 0 (no room; such probes are not judged) or a widget returned a canvas whose cursor "
-                  "was trimmed away (a known finding).  PARTIAL: Columns, Frame, Overlay, clip Padding and all FIXED sizing are "
-                  "modelled, extracted and compared but NOT proved; the full statement (render_contract_full) is refuted in Coq by "
+                  "was trimmed away (a known finding).  PARTIAL: Columns (hence LineBox), Overlay, clip Padding and all FIXED sizing "
+                  "are modelled, extracted and compared but NOT proved; the full statement (render_contract_full) is refuted in Coq by "
                   "two witnesses that replay on the implementation (fixed Padding: pack(()) != render(()); Overlay with packed "
                   "height asks rows() at the wrong width).  The leaf contract is a hypothesis (leaves_ok), discharged only by the "
                   "oracle on the real leaves (Text, Edit, Divider, SolidFill, Button, CheckBox, RadioButton, ProgressBar, BigText, "
@@ -1039,7 +1044,30 @@ class C01(core.Check):
         return spec_size(case["tree"]) > 1 or any(not isinstance(p.get("render"), str) for p in res["probes"])
 
     def signature(self, case, msg):
-        """Coarse failure class (the shrinker keeps the class while minimising)."""
+        """Failure class (kept by the shrinker while minimising) + the tree features that the known findings
+        are about, so that a new defect with a familiar symptom is not merged with a known one."""
+        import json
+        t = json.dumps(case["tree"])
+        feats = []
+        nodes = list(subtrees(case["tree"]))
+        if any(n[0] == "ov" and n[6] == "pack" for n in nodes):
+            feats.append("ov-height-pack")
+        if any(n[0] == "ov" and n[4] == "pack" for n in nodes):
+            feats.append("ov-width-pack")
+        if any(n[0] == "pad" and n[3] == "clip" for n in nodes):
+            feats.append("pad-clip")
+        if any(n[0] == "gridflow" for n in nodes):
+            feats.append("gridflow")
+        if re.search(r'"progress", \d+, "s"', t):
+            feats.append("progress-smooth")
+        if re.search(r'\["p"\], \["bigtext"', t):
+            feats.append("pile-fixed-only")
+        if "\\u0301" in t and case.get("enc") != "utf-8":
+            feats.append("combining-narrow")
+        return self.failure_class(msg) + (" {" + ",".join(feats) + "}" if feats else "")
+
+    @staticmethod
+    def failure_class(msg):
         m = re.search(r"raised (\w+):.*\[in (\w+)\]", msg, re.S)
         if m:
             cls = f"raised {m.group(1)} in {m.group(2)}"
@@ -1060,8 +1088,8 @@ class C01(core.Check):
         return "content rows do not match the canvas"
 
     def known_match(self, finding, case, msg):
-        """msg_regex (on the oracle message), tree_regex (on the JSON text of the shrunk tree),
-        enc_not / enc (encoding of the shrunk case); all given keys must match."""
+        """msg_regex (on the oracle message), tree_regex (on the JSON text of the shrunk tree), node (a node of
+        the shrunk tree with given kind and spec fields), probe_mode, enc_not / enc; all given keys must match."""
         import json
         m = finding.get("match", {})
         if not m:
@@ -1074,6 +1102,16 @@ class C01(core.Check):
             return False
         if "enc_not" in m and case.get("enc") == m["enc_not"]:
             return False
+        if "probe_mode" in m and not all(p[0] == m["probe_mode"] for p in case["probes"]):
+            return False
+        if "node" in m:
+            # some node of the shrunk tree has this kind and these spec fields (position -> value)
+            want = m["node"]
+
+            def ok(t):
+                return t[0] == want["kind"] and all(t[int(k)] == v for k, v in want.get("fields", {}).items())
+            if not any(ok(t) for t in subtrees(case["tree"])):
+                return False
         return True
 
     def distribution(self, case, res, dist):
